@@ -191,9 +191,41 @@ fn compare(
     None
 }
 
+/// The same workload in one process, for the valgrind memcheck stage
+pub struct C02V;
+
+impl Prop for C02V {
+    fn id(&self) -> &'static str {
+        "C02V"
+    }
+    fn mode(&self) -> Mode {
+        Mode::Threads
+    }
+    fn workers(&self) -> usize {
+        1
+    }
+    fn n_cases(&self, tier: Tier) -> u64 {
+        tier.pick(25, 400)
+    }
+    fn time_cap_s(&self, tier: Tier) -> u64 {
+        tier.pick(120, 900)
+    }
+    fn run_case(&self, case: u64, rng: &mut Rng, st: &mut Stats, tier: Tier) {
+        C02.run_case(case, rng, st, tier)
+    }
+    fn rule(&self) -> String {
+        "C02 workload under valgrind memcheck".into()
+    }
+}
+
 impl Prop for C02 {
     fn id(&self) -> &'static str {
         "C02"
+    }
+    fn extra_stage(&self, st: &mut Stats, tier: Tier, seed: u64) {
+        // memcheck over a subsample: invalid accesses incl.
+        // below rsp, use of uninitialised spill slots / lanes
+        crate::props::memcheck::run_memcheck_stage("C02V", st, tier, seed);
     }
     fn mode(&self) -> Mode {
         Mode::Children
